@@ -53,6 +53,12 @@ CHECKS = {
     "C15": _c("exploration",
               "Differential against the fault-free twin of each program: exception_time_series on a node or try_except_ around a generated sub-graph; throws in first/consecutive/scattered/all activations. One error tick per throwing cycle in that cycle carrying what(); run continues; nodes outside the dependency cone have identical runs; the thrower is activated in the same cycles as fault-free; nodes upstream of the thrower inside the wrapped sub-graph and independent timer nodes ranked after it run identically.",
               "DESIGN.md section 3 C15", TRUST, "runtime monitoring with fault injection: differential trace comparison against the fault-free run"),
+    "C16": _c("exploration",
+              "Offline checker over recorded boundary histories of real-time runs: every try_send / send_blocking call (thread, unique id, call and return timestamps, result) and every delivery seen by the sink. Checks exactly-once, only-accepted, per-producer prefix order, real-time order across producers, one value per cycle with strictly increasing evaluation times (queue) / ordered tuples (burst) / latest-value (conflating), pending <= capacity, justified refusals (stop requested or queue possibly full), blocking sends failing only after a stop, nothing accepted after run() returned, and bounded-progress delivery of everything accepted when the run keeps going. Seeded delays at the guarded hook points diversify interleavings.",
+              "DESIGN.md section 3 C16", TRUST + " Liveness restated as bounded progress (2.5 s drain deadline).", "runtime monitoring: stress + delay injection, offline history checker with unique ids", engine="hgrt"),
+    "C17": _c("exploration",
+              "Real-time timer/stop scenarios: evaluation times strictly increase; every request due before end (and before a stop) is evaluated at exactly its logical time and never before the wall clock reached it; already-due wall-clock alarms fire on the next cycle; after request_stop() returns at most one further cycle begins and run() returns - a run that stays in the wait phase after a stop is a violation witnessed by the write-through phase log (a watchdog alone is inconclusive); the run returns at the end time; lagging runs (start in the past) still deliver timers at their logical times.",
+              "DESIGN.md section 3 C17", TRUST + " Liveness restated as bounded progress.", "runtime monitoring: timed scenarios with stop/alarm sweeps, phase-log (hook) trace checker", engine="hgrt"),
     "C18": _c("exploration",
               "(a) exhaustive operation sequences (length<=3 quick, <=4 thorough, alphabet of 28 ops) plus random long sequences on the tree's NodeScheduler over a bare NodeSchedulerState: after every op all query answers equal the pending-set specification; (b) scheduler-script nodes in graphs interleaved with input-driven evaluations: wake-up times and in-node query answers equal the model.",
               "DESIGN.md section 3 C18", TRUST + " SchedModel is the specification.", "runtime monitoring: exhaustive small-scope state-machine conformance + in-graph trace vs model"),
@@ -102,13 +108,15 @@ def main():
             "guard": "HGRAPH_VERIF_HOOKS (compile definition; the builder adds it when env HGRAPH_VERIF=1, which every check sets)",
             "enable": "HGRAPH_VERIF=1 /venv/bin/python build/build.py all  (g++ -DHGRAPH_VERIF_HOOKS over /repo's working tree)",
             "baseline_off_cmd": "cd /repo && /venv/bin/python -m pytest -ra -q -p no:cacheprovider --timeout=900 --continue-on-collection-errors",
-            "source_commits": [],
+            "source_commits": ["8d6f157"],
             "add_only": True,
         },
         "engines": [
             {"name": "hgunit", "path": "harness/hgunit.cpp", "serves_properties": ["C18", "C19"],
              "kind_free_text": "C++ unit drivers over header-level state machines of the tree (NodeScheduler on a bare state; data-driven OperatorRegistry families)"},
-            {"name": "hgdrive", "path": "harness/hgdrive.cpp", "serves_properties": sorted(k for k in CHECKS if k != "C19"),
+            {"name": "hgrt", "path": "harness/hgrt.cpp", "serves_properties": ["C16", "C17"],
+             "kind_free_text": "C++ real-time/threaded driver: producer threads, controller thread, hook-point delay injection, write-through phase trace"},
+            {"name": "hgdrive", "path": "harness/hgdrive.cpp", "serves_properties": sorted(k for k in CHECKS if k not in ("C19", "C16", "C17")),
              "kind_free_text": "C++ simulation driver linked against the tree compiled from /repo; interprets generated programs, logs lifecycle + instrumented-node traces; Python offline monitors (vp/)"},
         ],
         "checks": checks,
